@@ -135,7 +135,7 @@ def facts_dir(kind, config="default", repo=None):
     repo = repo or REPO
     features = CONFIGS[config]
     ensure_driver()
-    key = tree_hash(repo)
+    key = ("repo-" if os.path.realpath(repo) == os.path.realpath("/repo") else "scratch-") + tree_hash(repo)
     d = os.path.join(CACHE, "facts", key, kind + "-" + config.replace("+", "_"))
     done = os.path.join(d, ".done")
     if os.path.exists(done):
@@ -161,8 +161,13 @@ def _gc_cache(keep_key):
         gens = sorted((os.stat(os.path.join(base, g)).st_mtime, g) for g in os.listdir(base))
     except OSError:
         return
-    for _, g in gens[:-3]:
-        if g != keep_key:
+    for prefix, keep in (("repo-", 3), ("scratch-", 2)):
+        mine = [(m, g) for m, g in gens if g.startswith(prefix)]
+        for _, g in mine[:-keep]:
+            if g != keep_key:
+                shutil.rmtree(os.path.join(base, g), ignore_errors=True)
+    for _, g in gens:
+        if not g.startswith(("repo-", "scratch-")):
             shutil.rmtree(os.path.join(base, g), ignore_errors=True)
 
 
